@@ -179,7 +179,9 @@ def check_valid(ctx, batch, text, items, expected, what, flags=None, additional=
             return False
         return True
     if real[0] == "rej":
-        if alt_expected == "invalid-over-base" and real[1] == "sdl":
+        # S8 applies to this document (a default uses members that only extensions add): since the A5 fix
+        # (unknown input fields in literals are rejected) the un-extended coercion may also reject with SDLError
+        if alt_expected is not None and real[1] == "sdl":
             ctx.fail("S8:default-coerced-against-unextended-type", "a default value is coerced against the un-extended type definitions",
                      detail)
             return False
